@@ -202,7 +202,7 @@ type journalLine struct {
 
 // Worker runs the shard of cases and journals to out.
 func Worker(p *Prop, env *Env, shard, of, after int, out string) {
-	cases := p.Gen(env.Tier, env.Seed)
+	cases := genCases(p, env.Tier, env.Seed)
 	f, err := os.OpenFile(out, os.O_CREATE|os.O_WRONLY|os.O_APPEND, 0o644)
 	if err != nil {
 		fmt.Fprintln(os.Stderr, err)
@@ -297,7 +297,7 @@ func (a *Agg) Distinct() int { return len(a.NT) + a.NTCount }
 // Run executes the property check as a parent process. Returns the exit code.
 func Run(p *Prop, tier string, seed int64, root, self, raceSelf string) int {
 	t0 := time.Now()
-	cases := p.Gen(tier, seed)
+	cases := genCases(p, tier, seed)
 	for i := range cases {
 		cases[i].Idx = i
 	}
@@ -747,4 +747,21 @@ func raceSig(block string) string {
 	}
 	sort.Strings(tops)
 	return "race:" + strings.Join(tops, "<>")
+}
+
+// genCases is p.Gen, optionally narrowed by VERIF_ONLY=<substring of the case name> (exploration aid;
+// no registered command sets it).
+func genCases(p *Prop, tier string, seed int64) []Case {
+	cases := p.Gen(tier, seed)
+	only := os.Getenv("VERIF_ONLY")
+	if only == "" {
+		return cases
+	}
+	var out []Case
+	for _, c := range cases {
+		if strings.Contains(c.Name, only) {
+			out = append(out, c)
+		}
+	}
+	return out
 }
